@@ -525,6 +525,12 @@ class _ContextRule:
                 elif isinstance(arg, ast.Name) and arg.id in saved:
                     if yielded:
                         restored = True
+                    elif not entered:
+                        # reached through the exception edge of the entering call: a rejected
+                        # selection must leave every slot untouched, but set_backend(<saved>)
+                        # stores the thread's current backend into its thread-local slot and,
+                        # in the shared flavour, publishes it
+                        ex.report(("R4-rejected-store", src(c)), "when the entering set_backend call raises (rejected selection) the context still runs set_backend on the saved backend: that pins the thread-local slot / republishes the shared default although nothing was selected", node)
                 elif yielded:
                     ex.report(("R4-restore-what", src(c)), "after the yield the context selects something other than the backend saved on entry", node)
         return (saved, entered, yielded, restored)
